@@ -94,6 +94,10 @@ the pool; exceptions captured in futures like the real one), so the parallel cod
 order: its trace, every fault (incl. truncate, open r+b, the worker handle's close) and every kill point are
 compared with the Coq model like the serial writer's.  Real multi-thread schedules stay oracle-only
 (`exercise_parallel`) and are C09's subject.
+Model-file failures (oracle only, `exercise_modelsave`): every scenario whose save succeeds is saved again through
+ir.save with a failure AFTER the data write, while the model file is written - ENOSPC injected into onnx.save,
+a directory at the model path, an unknown format.  The save must raise; an existing destination data file holds
+its old bytes or the complete new bytes, never missing; no temporary leftovers; nothing else changes.
 Real-file flavour (oracle only, `exercise_realfile`): every single-file scenario is also saved with the module's
 own open() (ordinary buffered files with a descriptor; ExternalTensor.tofile takes its copy_file_range path, numpy
 writes through the fd), serial and with max_workers=3, and judged against the run through the modelled file path
@@ -149,6 +153,8 @@ Mutants tried (scratch worktree /tmp/wt-C08, VERIF_REPO), all reported VIOLATION
                                                             save returns normally, destination lost bytes); r4m3 (`else: return`
                                                             after the copy_file_range loop) -> oracle replay (real-file flavour,
                                                             truncated source: save succeeds with an incomplete file)
+  seeded C08-r5m1 (ir.save removes join(base_dir, external_data) when onnx.save fails) -> oracle replay (model-file
+                                                            failure after the data write: destination data file missing)
 Unchanged tree: quiet for VERIF_SEED 0..4 (two `fixed:` lines).
 """
 
@@ -399,7 +405,7 @@ snapshot = S.snapshot
 
 
 def oracle(scn: dict, root: str, before: dict, after: dict, outcome: str, failed_kind: str | None,
-           new_bytes: dict | None, tens_before: list | None, built=None) -> list[str]:
+           new_bytes: dict | None, tens_before: list | None, built=None, after_commit: bool = False) -> list[str]:
     """Violations of the property statement visible on the real directory after an interrupted save.
     outcome: 'ok' | 'raise' | 'killed'.  failed_kind: kind of the injected failing effect (None for a tensor /
     callback failure or a kill).  new_bytes: data file -> complete new bytes of the un-interrupted save
@@ -431,7 +437,13 @@ def oracle(scn: dict, root: str, before: dict, after: dict, outcome: str, failed
                 bad.append(f"save returned normally but destination {d} does not hold the complete new bytes")
     # 2. exception while producing the new file: everything as before, nothing left over
     cleanup_fault = failed_kind in ("remove", "rmdir")
-    if outcome == "raise" and not cleanup_fault:
+    if outcome == "raise" and after_commit:
+        # the exception comes from writing the MODEL file, after the data file was produced: the destination may
+        # hold the complete new bytes (rule 1), nothing temporary may remain
+        for p in after:
+            if p not in before and any(S._TMP_RE.match(comp) for comp in p.split(os.sep)):
+                bad.append(f"left over after a failed save: {p}")
+    if outcome == "raise" and not cleanup_fault and not after_commit:
         for p, e in before.items():
             if p not in after:
                 bad.append(f"{p} removed by a failed save")
@@ -819,6 +831,35 @@ def exercise_realfile(ck, scn: dict, root: str, ref_outcome, new_bytes, tens_bef
     return fails
 
 
+# --------------------------------------------------------------------------- failures while writing the model file
+
+MODEL_VARIANTS = [{"model_fault": 28}, {"model_dir": True}, {"format": "no-such-format"}]   # 28 = ENOSPC
+
+
+def exercise_modelsave(ck, scn: dict, root: str, ref_outcome, new_bytes, tens_before) -> list[dict]:
+    """ir.save as the entry point with a failure AFTER the data write, while the model file is written (ENOSPC on
+    the model file, a directory at the model path, an unknown format).  Oracle only: the save must raise; an
+    existing destination data file holds its old bytes or the complete new bytes - never missing; nothing
+    temporary remains; nothing else changes."""
+    fails = []
+    if ref_outcome[0] != "ok":
+        return fails
+    for var in MODEL_VARIANTS:
+        scn2 = dict(scn, **var)
+        b2, c2, out2 = S.run_save(scn2, root)
+        after2 = snapshot(root)
+        ck.count()
+        ck.hist("model_file_failure", next(iter(var)) + (":raise" if out2[0] != "ok" else ":ok"))
+        bad = oracle(scn2, root, b2.before, after2, "ok" if out2[0] == "ok" else "raise", None, new_bytes,
+                     tens_before, b2, after_commit=True)
+        if out2[0] == "ok":
+            bad.append("save returned normally although the model file could not be written")
+        if bad:
+            fails.append({"scenario": scn2, "mode": "modelsave", "index": None, "failures": bad})
+        S.cleanup(b2)
+    return fails
+
+
 # --------------------------------------------------------------------------- parallel writer: oracle only
 
 def exercise_parallel(ck, scn: dict, root: str) -> list[dict]:
@@ -906,6 +947,7 @@ def run(ck) -> None:
         oracle_failures += sr.oracle_failures
         if scn.get("max_shard") is None:
             oracle_failures += exercise_realfile(ck, scn, root, sr.ref_outcome, sr.new_bytes, sr.tens_before)
+        oracle_failures += exercise_modelsave(ck, scn, root, sr.ref_outcome, sr.new_bytes, sr.tens_before)
         ck.hist("scenario_source", src)
         for t in scn["tensors"]:
             ck.hist("tensor_kinds", t["kind"])
@@ -1014,6 +1056,21 @@ def replay_case(scn: dict, mode: str, index, root: str, errno=None, persistent=F
     b, ctl, outcome = S.run_save(scn, root)
     after = snapshot(root)
     new_bytes = {p: e[1] for p, e in after.items() if e[0] == "file"} if outcome[0] == "ok" else None
+    if mode == "modelsave":
+        S.cleanup(b)
+        plain = {k: v for k, v in scn.items() if k not in ("model_fault", "model_dir", "format")}
+        bs, cs, outs = S.run_save(plain, root)
+        nb = {p: e[1] for p, e in snapshot(root).items() if e[0] == "file"} if outs[0] == "ok" else None
+        S.cleanup(bs)
+        if outs[0] != "ok":
+            return []
+        b2, c2, out2 = S.run_save(scn, root)
+        bad = oracle(scn, root, b2.before, snapshot(root), "ok" if out2[0] == "ok" else "raise", None, nb,
+                     tens_before, b2, after_commit=True)
+        if out2[0] == "ok":
+            bad.append("save returned normally although the model file could not be written")
+        S.cleanup(b2)
+        return bad
     if mode == "realfile":
         S.cleanup(b)
         serial = dict(scn, max_workers=None, pardet=False)
@@ -1062,7 +1119,7 @@ def shrink(ck, f: dict) -> dict:
                         if bad:
                             return j, bad, k
                 return None
-            for k in ([None] if cur["mode"] in ("none", "realfile") else range(n + 1)):
+            for k in ([None] if cur["mode"] in ("none", "realfile", "modelsave") else range(n + 1)):
                 bad = replay_case(scn, cur["mode"], k, root, en, pers, None, cur.get("lossy", False))
                 if bad:
                     return k, bad, None
